@@ -10,6 +10,17 @@ COMMON_NOTE = ("Trusted base: pyvc engine (AST transform T1-T3 of the real sourc
                "lift to C), A3 (integer powers), A4 (path forking via z3), A5 (numpy shim contracts, listed per run in evidence.trusted_base). ")
 
 CLAIMED = {
+    "C55": dict(
+        category="proof",
+        text=("Frame conditions by taint: the setting that does not apply is replaced by an object whose every use raises, and the real dispatch code runs on symbolic inputs along every "
+              "feasible path with the numerical kernels as opaque functions of what they receive (a tainted argument handed on counts as a read); where a setting is read the relational "
+              "statement 'results for different values coincide' is proved instead.  Covered: singlet / QED dispatchers (iteration count, expansion order), non-singlet sector of quad_ker_qcd, "
+              "N3LO variation and parametrisation below N3LO in gamma_ns / gamma_singlet / gamma_*_qed and in the polarised / time-like branches, QED-only arguments of quad_ker_ad and the "
+              "coupling list for pure QCD, em-running flag of the couplings without QED (both methods), inversion method of forward matchings (OperatorMatrixElement, build_ome, parts.match)."),
+        note=COMMON_NOTE + "Never-read settings give bitwise independence; the couplings clause compares two code paths over the reals. Whole solves are not compared.",
+        technique="contract-based deductive verification: non-interference (taint) proofs by path-exhaustive symbolic execution, relational fallback with exact normal form",
+        design_ref="DESIGN.md section 2, C55",
+    ),
     "C30": dict(
         category="proof",
         text=("The real builders gamma_singlet_qed / gamma_valence_qed / gamma_ns_qed (and the per-order builders of as1..as4, fhmruvv, aem1, aem2) executed with symbolic N over "
